@@ -545,6 +545,28 @@ func (dm *DagModifier) appendData(nd ipld.Node, spl chunker.Splitter) (ipld.Node
 
 	switch nd := nd.(type) {
 	case *mdag.ProtoNode:
+		// A leaf that carries its file data inline cannot take children
+		// (readers ignore the data of nodes with links): move the data
+		// into a leaf block under a new root first.
+		if fsn, err := ft.FSNodeFromBytes(nd.Data()); err == nil && len(nd.Links()) == 0 && len(fsn.Data()) > 0 {
+			leaf := mdag.NodeWithData(ft.WrapData(fsn.Data()))
+			leaf.SetCidBuilder(nd.CidBuilder())
+			if err := dagserv.Add(dm.ctx, leaf); err != nil {
+				return nil, err
+			}
+			fsn.AddBlockSize(uint64(len(fsn.Data())))
+			fsn.SetData(nil)
+			rootData, err := fsn.GetBytes()
+			if err != nil {
+				return nil, err
+			}
+			root := mdag.NodeWithData(rootData)
+			root.SetCidBuilder(nd.CidBuilder())
+			if err := root.AddNodeLink("", leaf); err != nil {
+				return nil, err
+			}
+			nd = root
+		}
 		// ProtoNode can be directly passed to trickle.Append
 		dbp := &help.DagBuilderParams{
 			Dagserv:    dagserv,
